@@ -453,13 +453,14 @@ unsafe fn do_spawn<F: PreExec>(
     const CLOEXEC_MSG_FOOTER: [u8; 4] = *b"NOEX";
     let (ours, theirs) = setup_io(default_stdio, needs_stdin, stdin, stdout, stderr)?;
     let sync_pipe = rusl::unistd::pipe2(OpenFlags::O_CLOEXEC)?;
-    let (read_pipe, write_pipe) = (sync_pipe.in_pipe, sync_pipe.out_pipe);
+    // Owned, so that both ends are released on every return path of the parent
+    let (read_pipe, write_pipe) = (OwnedFd(sync_pipe.in_pipe), OwnedFd(sync_pipe.out_pipe));
     let child_pid = rusl::process::fork()?;
     // From this point we're two processes
     if child_pid == 0 {
         // Executing as child process, which must never return into the caller's code:
         // a failure in any step is reported through the sync pipe like a failed exec
-        let _ = rusl::unistd::close(read_pipe);
+        let _ = rusl::unistd::close(read_pipe.0);
         let setup: Result<()> = (|| {
             if let Some(fd) = theirs.stdin.fd() {
                 rusl::unistd::dup2(fd, STDIN)?;
@@ -512,17 +513,17 @@ unsafe fn do_spawn<F: PreExec>(
             CLOEXEC_MSG_FOOTER[2],
             CLOEXEC_MSG_FOOTER[3],
         ];
-        let _ = rusl::unistd::write(write_pipe, &bytes);
+        let _ = rusl::unistd::write(write_pipe.0, &bytes);
         rusl::process::exit(1);
     }
-    let _ = rusl::unistd::close(write_pipe);
+    drop(write_pipe);
     let mut process = Process {
         pid: child_pid,
         status: None,
     };
     let mut bytes = [0, 0, 0, 0, 0, 0, 0, 0];
     loop {
-        match rusl::unistd::read(read_pipe, &mut bytes) {
+        match rusl::unistd::read(read_pipe.0, &mut bytes) {
             Ok(0) => {
                 let child = Child {
                     handle: process,
